@@ -16,7 +16,7 @@ SIGMA_STR = [
     '"', "\\", "\x00", "\x7f", "\ufeff", "\uffff", "\U0001f600",
 ]
 BOUNDS = {
-    "quick": "documents/values/types/coordinates with <=2 grammar deviations x 4 parser-flag settings; block and quoted strings: all strings <=3 over 19 hard characters (and <=6 over 5 block-layout characters) x 4 contexts x {parsed, programmatic}; >80-column wrapping family",
+    "quick": "documents/values/types/coordinates with <=2 grammar deviations x 4 parser-flag settings (mixed executable + type-system documents: <=1); block and quoted strings: all strings <=3 over 19 hard characters (and <=6 over 5 block-layout characters) x 4 contexts x {parsed, programmatic}; >80-column wrapping family",
     "thorough": "<=3 grammar deviations; strings <=4 over 19 hard characters (<=7 over 6 layout characters)",
 }
 RULE = (
@@ -42,14 +42,14 @@ def shards(tier):
     out = []
     for mode in ("executable", "typesystem", "extension", "mixed"):
         for fa, dd in FLAGS:
-            if mode == "mixed" and (tier == "quick" or (fa, dd) != (True, True)):
+            if mode == "mixed" and (fa, dd) != (True, True):
                 continue
             if mode == "executable" and dd:
                 if fa:
                     continue
             kinds = grammar.kinds_for(mode, dd)
             for ki in range(len(kinds)):
-                out.append(("doc", (mode, fa, dd, ki, k if mode != "mixed" else 2)))
+                out.append(("doc", (mode, fa, dd, ki, k if mode != "mixed" else k - 1)))
     for what in ("value", "const", "type", "coord"):
         out.append(("entry", (what, k + 1)))
     for i in range(len(SIGMA_STR)):
